@@ -16,9 +16,9 @@
 (*    from_sections/put_char (UTF16CodePoint{offset}, HexString,            *)
 (*    ArrayOfHexStrings), `get`, and the segmentation loop of               *)
 (*    Encoding::bytes_to_string.  The parameter dev = [h34, h35] switches   *)
-(*    the two confirmed deviations on ("as the code is") or off ("as        *)
-(*    repaired": the stored value remembers the first code of its           *)
-(*    definition):                                                          *)
+(*    the two deviations that were confirmed and then repaired in lopdf      *)
+(*    (fix: 3c7db25) back on; off = the code as it is (StoredTarget: the     *)
+(*    stored value remembers the first code of its definition):             *)
 (*      h34  get computes the offset from the start of the STORED range,    *)
 (*           which moves when the head of the range is overwritten;         *)
 (*      h35  HexString/Array values carry no base, so touching ranges with  *)
@@ -189,7 +189,8 @@ Program(defs, cs, st) ==
 -----------------------------------------------------------------------------
 (* Impl-shaped layer: ToUnicodeCMap { bf_ranges: [RangeInclusiveMap<u32, BfRangeTarget>; 4] } *)
 
-\* BfRangeTarget.  `base` is the repair (absent in the code as it is: constant 0 under h35).
+\* StoredTarget { base, target: BfRangeTarget }.  `base` came with the repair (fix: 3c7db25); under h35 (the old
+\* defect) it is the constant 0.
 CpVal(off)      == [k |-> "cp",  off |-> off, u |-> <<>>, a |-> <<>>, base |-> 0]
 HexVal(us, b)   == [k |-> "hex", off |-> 0,   u |-> us,   a |-> <<>>, base |-> b]
 ArrVal(aa, b)   == [k |-> "arr", off |-> 0,   u |-> <<>>, a |-> aa,   base |-> b]
@@ -242,9 +243,11 @@ ImplGet(dev, maps, len, code) ==
              v   == e.v
              off == code - (IF dev.h34 THEN e.lo ELSE v.base)      \* code - range.start()
          IN CASE v.k = "cp"  -> <<(code + v.off) % 65536>>
-              [] v.k = "hex" -> IF v.u[Len(v.u)] + (off % 65536) > 65535 THEN Panic
+              \* the code as it is: last.wrapping_add(off) and vec.get(off); the old code: `+=` (overflow check) and vec[off]
+              [] v.k = "hex" -> IF v.u[Len(v.u)] + (off % 65536) > 65535
+                                THEN (IF dev.h34 THEN Panic ELSE [v.u EXCEPT ![Len(v.u)] = (@ + off) % 65536])
                                 ELSE AddLast(v.u, off % 65536)
-              [] v.k = "arr" -> IF off + 1 > Len(v.a) THEN Panic ELSE v.a[off + 1]
+              [] v.k = "arr" -> IF off + 1 > Len(v.a) THEN (IF dev.h34 THEN Panic ELSE <<>>) ELSE v.a[off + 1]
 
 \* Encoding::bytes_to_string, UnicodeMapEncoding arm: shortest matching length first, at most 4
 GetOrRepl(dev, maps, len, code) ==
